@@ -360,6 +360,7 @@ def memo_clone(v, memo):
 class State:
     def __init__(self):
         self.pc = []            # list of z3 Bool: path condition (includes assumptions)
+        self._pc_ids = set()    # AST ids of the hypotheses (a clause is recorded once)
         self.heap = {}          # (cls, field) -> z3 array
         self.locals = {}
         self.roots = {}         # name -> ObjV etc: the world
@@ -373,6 +374,7 @@ class State:
         memo = {}
         s = State()
         s.pc = list(self.pc)
+        s._pc_ids = set(self._pc_ids)
         s.heap = dict(self.heap)
         s.locals = {k: memo_clone(v, memo) for k, v in self.locals.items()}
         s.roots = {k: memo_clone(v, memo) for k, v in self.roots.items()}
@@ -391,4 +393,8 @@ class State:
             f = z3.BoolVal(False)
         if z3.is_true(f):
             return
+        k = f.get_id()
+        if k in self._pc_ids:
+            return
+        self._pc_ids.add(k)
         self.pc.append(f)
